@@ -271,6 +271,16 @@ REJECT = [
 ]
 
 
+
+def regenerate(ctx):
+    """translator: the live pyparsing grammar object graph -> Mitx/Generated/Grammar.lean (obligation grammar_matches)"""
+    from translate import grammar as TG
+    from common import LEAN
+    n = TG.regenerate(LEAN)
+    ctx.notes.append('translator: grammar object graph, %d elements' % n)
+    return 1
+
+
 def run(ctx):
     from mitxgraders.helpers.calc.expressions import MathParser
     rng = ctx.rng
